@@ -88,7 +88,7 @@ def big(c):
         e = json.loads(ctx[-1])
         what = "panicked" if "crash" in e else "reply not allowed by RingBuffer.tla"
         c.report_failure("ring: large capacity: %s %s" % (e.get("op"), what),
-                         {"rejected_at_line": at, "history": ctx[:1] + ctx[-12:], "trace": {"comp": "ring", "module": "RingBigTrace"}})
+                         {"rejected_at_line": at, "history": ctx, "trace": {"comp": "ring", "module": "RingBigTrace"}})
 
 
 def summarize(line):
